@@ -103,19 +103,22 @@ Theorem C15_os_centred_symmetric : forall k k', reconx k < encx k -> 0 < reconx 
 Proof. exact remove_os_centred. Qed.
 Print Assumptions C15_os_centred_symmetric.
 
-(* shapes: the label tensor written by a split fits the data iff there was a single "other" entry before (KF-04) *)
-Theorem C15_split_label_shape : forall sidx label k k', split_k1 sidx label k = inr k' -> nO k = 1 ->
+(* shapes: the label tensor written by a split fits the data for every number of "other" entries (since the repair of KF-04:
+   'other_split -> (other other_split) k2 k1'), and labels every new entry with its block number *)
+Theorem C15_split_label_shape : forall sidx label k k', split_k1 sidx label k = inr k' ->
   fst (fst (ish k' label)) = nO k'.
-Proof. intros sidx label k k' E H1. destruct (split_k1_label_shape _ _ _ _ E) as [-> ->]. cbn. lia. Qed.
+Proof. intros sidx label k k' E. destruct (split_k1_label_shape _ _ _ _ E) as [-> ->]. cbn. reflexivity. Qed.
 Print Assumptions C15_split_label_shape.
 
-Theorem C15_split_label_shape_refuted : forall sidx label k k', split_k1 sidx label k = inr k' -> 1 < nO k -> sidx <> [] ->
-  fst (fst (ish k' label)) <> nO k'.
+(* the pre-repair label tensor (repeat(linspace, 'other -> other k2 k1'): first axis = number of blocks) did not fit as soon as
+   the data had more than one "other" entry *)
+Theorem C15_split_label_shape_legacy_refuted : forall sidx label k k', split_k1 sidx label k = inr k' -> 1 < nO k -> sidx <> [] ->
+  Z.of_nat (length sidx) <> nO k'.
 Proof.
-  intros sidx label k k' E H1 Hs. destruct (split_k1_label_shape _ _ _ _ E) as [-> ->]. cbn.
+  intros sidx label k k' E H1 Hs. destruct (split_k1_label_shape _ _ _ _ E) as [_ ->].
   destruct sidx; [congruence|]. cbn [length]. nia.
 Qed.
-Print Assumptions C15_split_label_shape_refuted.
+Print Assumptions C15_split_label_shape_legacy_refuted.
 
 (* split_idx: blocks of np_per_block consecutive indices (mod n), block starts np_per_block - np_overlap apart, as many
    blocks as fit into the (cyclically extended) index *)
